@@ -194,10 +194,11 @@ pub const K_DIVCAND: u8 = 21; // candidate infinite loop (G-div)
 pub const K_IOCHAIN: u8 = 22; // loop whose body updates and prints several cells around an input
 pub const K_CONSTLOOP: u8 = 23; // loop with a compile-time constant trip count (up to ~60)
 pub const K_ARRAY: u8 = 24; // pointer-shifting loop over an array of known length
-pub const K_COUNTED: u8 = 25; // with body
-pub const K_IFLIKE: u8 = 26; // with body
-pub const K_WHILE: u8 = 27; // with body
-pub const N_LEAF_KINDS: u8 = 25;
+pub const K_ACCUMIN: u8 = 25; // loop that uses a cell and then overwrites it with input (read until zero)
+pub const K_COUNTED: u8 = 26; // with body
+pub const K_IFLIKE: u8 = 27; // with body
+pub const K_WHILE: u8 = 28; // with body
+pub const N_LEAF_KINDS: u8 = 26;
 
 pub const DIV_CANDIDATES: &[&str] = &[
     "+[]", "+[.]", "+[>+<]", "[]", "+[-+]", "+[[-]+]", ",[.]", "+[>]", "-[+>+<-]", ",[]", ",[>+<]", "+[>.<]", ",[[.]]", "+[>,<]", "+[>[-]<]", "[.]", "-[.+]", "+[[>]<]",
@@ -543,6 +544,50 @@ fn render_idiom(i: &Idiom, n: i64, w: &mut W) {
                 w.cur = start;
             }
         }
+        K_ACCUMIN => {
+            // "read until zero": while x { use x (read-only copy, or move); x = next input byte }.
+            // The input cell is read in the body *before* it is overwritten, the loop only writes it through `,`.
+            match m % 3 {
+                0 => {
+                    // x is the loop condition itself
+                    if i.flag {
+                        w.go(a);
+                        w.e(",");
+                    }
+                    w.go(a);
+                    w.e("[");
+                    w.clear(c);
+                    w.copy(a, b, c);
+                    if k % 2 == 0 {
+                        w.go(b);
+                        w.e(".");
+                    }
+                    w.go(a);
+                    w.e(",]");
+                }
+                1 => {
+                    // counted loop; another cell x is accumulated and then re-read from input
+                    w.go(a);
+                    w.e("[");
+                    w.clear(c);
+                    w.copy(d, b, c);
+                    w.go(d);
+                    w.e(",");
+                    w.go(a);
+                    w.e("-]");
+                }
+                _ => {
+                    // destructive variant: move x away, then read it again
+                    w.go(a);
+                    w.e("[[-");
+                    w.go(b);
+                    w.rep('+', 1 + k % 3);
+                    w.go(a);
+                    w.e("]");
+                    w.e(",]");
+                }
+            }
+        }
         K_DIVCAND => {
             w.go(a);
             let cand = DIV_CANDIDATES[(k as usize * 4 + m as usize) % DIV_CANDIDATES.len()];
@@ -627,7 +672,7 @@ impl StructProg {
 fn kind_table(div: bool) -> Vec<u8> {
     let mut t = vec![
         K_ADD, K_ADD, K_OUT, K_IN, K_CLEAR, K_MOVEADD, K_MOVEADD, K_MOVEADD, K_STEPLOOP, K_COPY, K_COPY, K_DOUBLING, K_MUL, K_GEOMETRIC, K_GEOMETRIC, K_TRIANGULAR, K_TRIANGULAR,
-        K_OUTLOOP, K_INLOOP, K_SCAN, K_NONUNIT, K_REFILL, K_IFELSE, K_COUNTUP, K_SUBTRACT, K_SQUARE, K_SWAP, K_IOCHAIN, K_IOCHAIN, K_CONSTLOOP, K_ARRAY, K_ARRAY,
+        K_OUTLOOP, K_INLOOP, K_SCAN, K_NONUNIT, K_REFILL, K_IFELSE, K_COUNTUP, K_SUBTRACT, K_SQUARE, K_SWAP, K_IOCHAIN, K_IOCHAIN, K_CONSTLOOP, K_ARRAY, K_ARRAY, K_ACCUMIN, K_ACCUMIN,
     ];
     if div {
         for _ in 0..6 {
